@@ -19,11 +19,13 @@ func init() {
 
 func runC14(e *core.Env) {
 	c := genCopyCase(e, copyGenOpts{defaultOptsOnly: true})
+	defer c.done()
+	c.watch()
 	rc := c.w.Client()
 	s, t := c.refs()
 	// optional history before the measured copy, through the same client: a copy from a repository
 	// for which the registry declines mounts (per-repository permissions)
-	warm := c.pairing != "two-registries" && e.Choose("gen", 3, "warmup") == 2
+	warm := (c.pairing == "same-registry" || c.pairing == "same-repository") && e.Choose("gen", 3, "warmup") == 2
 	if warm {
 		c.src.K.MountDeclineFrom = "restricted/"
 		wg := gen.New(e.Tape)
@@ -38,7 +40,7 @@ func runC14(e *core.Env) {
 	logStart := len(c.w.Net.Log)
 	e.SetCase(c.key()+fmt.Sprint(warm), true, c.describe())
 	simrt.Event("ImageCopy %s -> %s pre=%s", s.CommonName(), t.CommonName(), c.preState)
-	jStart := len(c.tgt.Journal)
+	c.writes = nil
 	err := rc.ImageCopy(context.Background(), s, t)
 	simrt.Event("ImageCopy returned %v", err)
 	drainTasks(e, 20)
@@ -61,6 +63,13 @@ func runC14(e *core.Env) {
 	}
 	srcBlobPrefix := "/v2/" + c.srcRepo + "/blobs/"
 	tgtBlobPrefix := "/v2/" + c.tgtRepo + "/blobs/"
+	srcName, tgtName := "-", "-"
+	if c.src != nil {
+		srcName = c.src.Name
+	}
+	if c.tgt != nil {
+		tgtName = c.tgt.Name
+	}
 	downloads := map[string]int{}
 	uploaded := map[string]int{} // body bytes sent per upload session url
 	upBytesTotal := 0
@@ -73,22 +82,22 @@ func runC14(e *core.Env) {
 		if x.Method != "GET" && x.Method != "HEAD" {
 			writes++
 		}
-		if x.Method == "PUT" && strings.Contains(x.Path, "/manifests/") && x.Host == c.tgt.Name {
+		if x.Method == "PUT" && strings.Contains(x.Path, "/manifests/") && x.Host == tgtName {
 			manifestPuts++
 		}
 		// body downloads from the source repository
-		if x.Host == c.src.Name && x.Method == "GET" && strings.HasPrefix(x.Path, srcBlobPrefix) && !strings.Contains(x.Path, "/uploads/") && x.Status >= 200 && x.Status < 300 {
+		if x.Host == srcName && x.Method == "GET" && strings.HasPrefix(x.Path, srcBlobPrefix) && !strings.Contains(x.Path, "/uploads/") && x.Status >= 200 && x.Status < 300 {
 			d := strings.TrimPrefix(x.Path, srcBlobPrefix)
 			downloads[d]++
 			if c.preBlob[d] && c.pairing != "same-repository" {
 				e.Violation("download-existing", "downloaded-blob-present-at-target", "request #%d downloaded %s from the source although the target repository already held it when the copy started", x.Seq, short(d))
 			}
-			if c.pairing == "same-registry" && c.src.K.Mount == 0 && hosted[d] {
+			if c.pairing == "same-registry" && c.src.K.Mount == 0 && hosted[d] && !strings.HasPrefix(c.srcRepo, "restricted/") {
 				e.Violation("mount", "download-despite-mount", "request #%d downloaded %s although source and target share a registry that grants mounts", x.Seq, short(d))
 			}
 		}
 		// body uploads into the target repository
-		if x.Host == c.tgt.Name && (x.Method == "PATCH" || x.Method == "PUT") && strings.HasPrefix(x.Path, tgtBlobPrefix+"uploads/") && x.Delivered {
+		if x.Host == tgtName && (x.Method == "PATCH" || x.Method == "PUT") && strings.HasPrefix(x.Path, tgtBlobPrefix+"uploads/") && x.Delivered {
 			uploaded[x.Path] += len(x.ReqBody)
 			upBytesTotal += len(x.ReqBody)
 			if x.Method == "PUT" {
@@ -105,8 +114,8 @@ func runC14(e *core.Env) {
 	}
 	// per digest at most one body upload: the journal's blob commits give the digest per session; count bytes per digest
 	committed := map[string]int{}
-	for _, w := range c.tgt.Journal[jStart:] {
-		if w.Kind == "blob" && w.Repo == c.tgtRepo {
+	for _, w := range c.writes {
+		if w.Kind == "blob" {
 			committed[w.Digest]++
 		}
 	}
@@ -120,8 +129,11 @@ func runC14(e *core.Env) {
 			e.Violation("once", "uploaded-blob-present-at-target", "blob %s was uploaded although the target repository already held it", short(d))
 		}
 	}
-	if upBytesTotal > expectBytes {
+	if c.tgt != nil && upBytesTotal > expectBytes {
 		e.Violation("once", "upload-bytes-exceed", "%d body bytes were uploaded for blobs totalling %d bytes", upBytesTotal, expectBytes)
+	}
+	if c.pairing == "layout-to-layout" || c.pairing == "registry-to-layout" {
+		e.Probe("layout-target")
 	}
 	if c.pairing == "same-repository" {
 		if blobReqs != 0 {
@@ -132,14 +144,17 @@ func runC14(e *core.Env) {
 		}
 		e.Probe("retag")
 	}
-	if c.preState == "complete" {
+	if c.preState == "complete" || c.preState == "complete-plain" {
 		if writes != 0 {
 			e.Violation("identical", "identical-target-written", "target already held the identical image, yet %d state-changing requests were sent", writes)
+		}
+		if len(c.writes) != 0 {
+			e.Violation("identical", "identical-target-written", "target already held the identical image, yet %d writes reached it (first: %s %s)", len(c.writes), c.writes[0].Kind, short(c.writes[0].Digest))
 		}
 		e.Probe("identical-target")
 	}
 	mounts := 0
-	for _, w := range c.tgt.Journal[jStart:] {
+	for _, w := range c.writes {
 		if w.Kind == "mount" {
 			mounts++
 		}
